@@ -179,9 +179,10 @@ def beh_run(ctx, exe, cfg, label, simulate=None, depth=None, timeout=900):
     else:
         ctx.add(simulated_steps=len(cases))
     stats = {"Q": Q[0]["Q"], "known_find": 0, "known_gen": 0, "exe": exe}
-    res = common.batch_run(exe, [case_of(stats["Q"], c["hist"]) for c in cases], timeout=900)
+    res = common.batch_run(exe, [case_of(stats["Q"], c["hist"]) for c in cases], timeout=900, max_crashes=12, on_excess="skip")
     paths = {}
     for c, a in zip(cases, res):
+        if isinstance(a, dict) and a.get("skipped"): continue      # batch cut short after repeated deaths (each one reported)
         judge(ctx, c, a, label, stats)
         lo = last_op(c["hist"]); paths[lo] = paths.get(lo, 0) + 1
     ctx.add(evaluations=len(cases), traces_validated_against_impl=len(cases),
@@ -357,8 +358,9 @@ def trace_part(ctx, exes):
         for bi, (bname, exe) in enumerate(exes):
             # the growth histories need the ASan build (first in the list); the quick tier runs them only there
             todo = list(range(len(scripts) if (bi == 0 or not ctx.quick) else nrandom))
-            res = common.batch_run(exe, [scripts[i] for i in todo], timeout=600)
+            res = common.batch_run(exe, [scripts[i] for i in todo], timeout=600, max_crashes=12, on_excess="skip")
             for i, a in zip(todo, res):
+                if isinstance(a, dict) and a.get("skipped"): continue
                 rp = {"build": bname, "script": scripts[i]}
                 if i in glabel: rp["growth_history"] = glabel[i]
                 if isinstance(a, dict):
